@@ -21,6 +21,18 @@ fn fail(shard: &mut Shard, props: &[&'static str], signature: String, detail: St
     shard.add_finding(Finding { props: props.to_vec(), signature, detail, witness, inconclusive: false });
 }
 
+
+/// Runs one component case; a panic inside the code under test is a finding, not a harness crash.
+fn guarded<F: FnOnce(&mut Shard)>(shard: &mut Shard, props: &[&'static str], what: &str, case: F) {
+    let mark = rt::panic_count();
+    let result = std::panic::catch_unwind(std::panic::AssertUnwindSafe(|| case(shard)));
+    if result.is_err() {
+        let site = rt::panics_since(mark).last().map(rt::panic_site).unwrap_or_else(|| "unknown".into());
+        let why = rt::panics_since(mark).last().map(|p| format!("{}:{}: {}", p.file, p.line, p.message)).unwrap_or_default();
+        fail(shard, props, format!("{}/panic/{}", props[0], site), format!("{} panicked: {}", what, why), J::obj().with("case", J::s(what)));
+    }
+}
+
 // ------------------------------------------------------------------------------------------------ C14
 
 /// Exhaustive over all 256 byte values x 2 nibble positions (+ neighbours in longer rows).
@@ -219,15 +231,20 @@ fn run_c14(args: &Args, shard: &mut Shard) {
     let from = args.u64("from", 0);
     let stride = args.u64("stride", 1);
     let count = args.u64("count", 10);
-    if from == 0 { c14_bytes(shard); }
+    if from == 0 { guarded(shard, &["C14", "C17"], "packed-row byte cases", |shard| c14_bytes(shard)); }
     // every counter count 1..=130 is covered across the shards, plus random larger ones (non-powers of two included)
     let mut c = 1 + from;
-    while c <= 130 { c14_sketch(shard, c, seed); c14_tinylfu(shard, c, seed); c += stride; }
+    while c <= 130 {
+        guarded(shard, &["C14", "C17"], &format!("sketch with {} counters", c), |shard| c14_sketch(shard, c, seed));
+        guarded(shard, &["C14", "C17"], &format!("TinyLFU with {} counters", c), |shard| c14_tinylfu(shard, c, seed));
+        c += stride;
+    }
     let mut rng = rt::rng_for(seed, from, 0x14);
     for _ in 0..count {
         let big = match rng.below(4) { 0 => rng.range(131, 5000), 1 => (1u64 << rng.range(8, 16)) + rng.range(0, 2) - 1, 2 => rng.range(5000, 70_000), _ => rng.range(131, 1000) };
-        c14_sketch(shard, big, rng.next());
-        if big <= 3000 { c14_tinylfu(shard, big, rng.next()); }
+        let (seed_a, seed_b) = (rng.next(), rng.next());
+        guarded(shard, &["C14", "C17"], &format!("sketch with {} counters", big), |shard| c14_sketch(shard, big, seed_a));
+        if big <= 3000 { guarded(shard, &["C14", "C17"], &format!("TinyLFU with {} counters", big), |shard| c14_tinylfu(shard, big, seed_b)); }
     }
     shard.sample(J::obj().with("part", J::s("FrequencyCounter / TinyLFU against an unpacked reference sketch fed the same row seeds and access stream")).with("counter_counts", J::s("1..=130 and random larger")));
 }
@@ -654,7 +671,10 @@ pub fn run(args: &Args) -> Shard {
         "c06" => {
             let mut index = from;
             let mut done = 0;
-            while done < count && shard.started.elapsed() < budget { c06_case(&mut shard, seed, index); index += stride; done += 1; }
+            while done < count && shard.started.elapsed() < budget {
+                guarded(&mut shard, &["C06", "C17"], &format!("admission decision {}", index), |shard| c06_case(shard, seed, index));
+                index += stride; done += 1;
+            }
         }
         "c12-directed" => { if from == 0 { c12_directed(&mut shard); } }
         "c12-stress" => c12_stress(&mut shard, seed, from, count),
